@@ -142,7 +142,9 @@ func GetKeystoreFromJson(keysJson []byte) (*Keystore, error) {
 // NOTE: this func will leave the masterKeyPriv derived
 func (a *AddrManager) checkPassword(passphrase []byte) error {
 	if a.unlocked {
-		saltedPassphrase := append(a.privPassphraseSalt[:],
+		// a fresh buffer: with an empty passphrase append would return the salt array itself, and the
+		// wipe below would zero the salt
+		saltedPassphrase := append(append([]byte{}, a.privPassphraseSalt[:]...),
 			passphrase...)
 		hashedPassphrase := sha512.Sum512(saltedPassphrase)
 		zero.Bytes(saltedPassphrase)
